@@ -6,6 +6,9 @@ CONSTANTS Src = {"z"}
           Gated = {"z"}
           MaxH = 1
           EmitOn = "edge"
+          GovChains = {"t","z"}
+          RelayOn = FALSE
+          Silent = {"v","r"}
 VIEW View
 INVARIANT TypeOK
 PROPERTY PropC20 PropC21 PropC22
